@@ -149,6 +149,29 @@ def gap_game(rng, r):
     return prob, pred, "xor-unequal-answers"
 
 
+def relabel_and_pad(rng, prob, pred, pad_a, pad_b):
+    """Same game in disguise: add pad_a / pad_b never-winning answers at random positions and permute every answer alphabet per question.
+
+    All values of a game are invariant under this (answers are only relabelled; the added answers never win), so it both
+    creates games with unequal alphabets whose useful answers sit at high indices and gives a metamorphic invariance."""
+    a, b, x, y = pred.shape
+    out = np.zeros((a + pad_a, b + pad_b, x, y))
+    for ix in range(x):
+        pa = rng.permutation(a + pad_a)
+        for iy in range(y):
+            pb = np.random.default_rng([int(rng.integers(0, 2 ** 31)), iy]).permutation(b + pad_b) if ix == 0 else None
+            if ix == 0:
+                relabel_and_pad._pb[iy] = pb
+            pb = relabel_and_pad._pb[iy]
+            for ia in range(a):
+                for ib in range(b):
+                    out[pa[ia], pb[ib], ix, iy] = pred[ia, ib, ix, iy]
+    return prob.copy(), out
+
+
+relabel_and_pad._pb = {}
+
+
 def explicit_quantum_value(rng, prob, pred, tries=150):
     """Rigorous lower bound on the quantum value: best of explicit projective strategies on a maximally entangled state."""
     a, b, x, y = pred.shape
@@ -364,6 +387,17 @@ def _run_sdp(ctx, spec, rng):
         name = "random"
     else:
         prob, pred, name = gap_game(rng, spec[1])
+    base_npa1 = None
+    if name != "random" and spec[1] % 2 == 1:
+        # the same game in disguise (relabelled answers, padded with never-winning answers): unequal alphabets whose useful
+        # answers sit at arbitrary indices; NPA level 1 must not change
+        ctx.evals["solver-call"] += 1
+        v0 = ctx.call(NonlocalGame(prob.copy(), pred.copy()).commuting_measurement_value_upper_bound, 1, solver=True)
+        base_npa1 = None if v0 is FAILED or v0 is None else float(v0)
+        pad_a, pad_b = [(0, 1), (1, 0), (0, 2), (1, 1)][(spec[1] // 2) % 4]
+        if max(pred.shape[0] + pad_a, pred.shape[1] + pad_b) <= 4:
+            prob, pred = relabel_and_pad(rng, prob, pred, pad_a, pad_b)
+            name = name + f"+relabelled-pad{pad_a}{pad_b}"
     a, b, x, y = pred.shape
     game = NonlocalGame(prob.copy(), pred.copy())
     before = (snap.digest(game.prob_mat), snap.digest(game.pred_mat))
@@ -393,6 +427,9 @@ def _run_sdp(ctx, spec, rng):
                   mech=f"npa:below-explicit-strategy[k={k}]", detail=det)
         if ns is not None:
             ctx.check("O2:NPA<=NS", v <= ns + TOL, dev=max(0.0, v - ns), tol=TOL, sig=sig + (str(k),), nt=nt, mech=f"npa:above-nonsignaling[k={k}]", detail=det)
+    if base_npa1 is not None and npa.get(1) is not None:
+        ctx.check("O2:NPA-invariant-under-relabelling", abs(npa[1] - base_npa1) <= TOL, dev=abs(npa[1] - base_npa1), tol=TOL, sig=sig, nt=True,
+                  mech="npa:changes-under-answer-relabelling-or-padding", detail=dict(det, npa1_of_original_game=base_npa1))
     order = [k for k in (1, "1+ab", 2) if npa.get(k) is not None]
     for k1, k2 in zip(order, order[1:]):
         ctx.check("O2:NPA-monotone", npa[k2] <= npa[k1] + TOL, dev=max(0.0, npa[k2] - npa[k1]), tol=TOL, sig=sig + (str(k1), str(k2)), nt=nt,
